@@ -84,6 +84,16 @@ func (db *Backend) metaBucket(tx *bolt.Tx) (*metaBucket, error) {
 	}, nil
 }
 
+// s3Bucket returns the bolt bucket that stores the S3 bucket 'name', or nil if
+// there is none. The bucket holding gofakes3's own bookkeeping is not an S3
+// bucket and must never be served as one.
+func (db *Backend) s3Bucket(tx *bolt.Tx, name string) *bolt.Bucket {
+	if bytes.Equal([]byte(name), db.metaBucketName) {
+		return nil
+	}
+	return tx.Bucket([]byte(name))
+}
+
 func (db *Backend) ListBuckets() ([]gofakes3.BucketInfo, error) {
 	var buckets []gofakes3.BucketInfo
 
@@ -141,7 +151,7 @@ func (db *Backend) ListBucket(name string, prefix *gofakes3.Prefix, page gofakes
 	objects := gofakes3.NewObjectList()
 
 	err := db.bolt.View(func(tx *bolt.Tx) error {
-		b := tx.Bucket([]byte(name))
+		b := db.s3Bucket(tx, name)
 		if b == nil {
 			return gofakes3.BucketNotFound(name)
 		}
@@ -193,6 +203,9 @@ func (db *Backend) CreateBucket(name string) error {
 
 		{ // create bucket
 			nameBts := []byte(name)
+			if bytes.Equal(nameBts, db.metaBucketName) {
+				return gofakes3.ErrorMessage(gofakes3.ErrInvalidBucketName, "reserved name")
+			}
 			if tx.Bucket(nameBts) != nil {
 				return gofakes3.ResourceError(gofakes3.ErrBucketAlreadyExists, name)
 			}
@@ -285,7 +298,7 @@ func (db *Backend) ForceDeleteBucket(name string) error {
 
 func (db *Backend) BucketExists(name string) (exists bool, err error) {
 	err = db.bolt.View(func(tx *bolt.Tx) error {
-		b := tx.Bucket([]byte(name))
+		b := db.s3Bucket(tx, name)
 		exists = b != nil
 		return nil
 	})
@@ -305,7 +318,7 @@ func (db *Backend) GetObject(bucketName, objectName string, rangeRequest *gofake
 	var t boltObject
 
 	err := db.bolt.View(func(tx *bolt.Tx) error {
-		b := tx.Bucket([]byte(bucketName))
+		b := db.s3Bucket(tx, bucketName)
 		if b == nil {
 			return gofakes3.BucketNotFound(bucketName)
 		}
@@ -351,7 +364,7 @@ func (db *Backend) PutObject(
 	hash := md5.Sum(bts)
 
 	return result, db.bolt.Update(func(tx *bolt.Tx) error {
-		b := tx.Bucket([]byte(bucketName))
+		b := db.s3Bucket(tx, bucketName)
 		if b == nil {
 			return gofakes3.BucketNotFound(bucketName)
 		}
@@ -380,7 +393,7 @@ func (db *Backend) CopyObject(srcBucket, srcKey, dstBucket, dstKey string, meta 
 
 func (db *Backend) DeleteObject(bucketName, objectName string) (result gofakes3.ObjectDeleteResult, rerr error) {
 	return result, db.bolt.Update(func(tx *bolt.Tx) error {
-		b := tx.Bucket([]byte(bucketName))
+		b := db.s3Bucket(tx, bucketName)
 		if b == nil {
 			return gofakes3.BucketNotFound(bucketName)
 		}
@@ -393,7 +406,7 @@ func (db *Backend) DeleteObject(bucketName, objectName string) (result gofakes3.
 
 func (db *Backend) DeleteMulti(bucketName string, objects ...string) (result gofakes3.MultiDeleteResult, err error) {
 	err = db.bolt.Update(func(tx *bolt.Tx) error {
-		b := tx.Bucket([]byte(bucketName))
+		b := db.s3Bucket(tx, bucketName)
 		if b == nil {
 			return gofakes3.BucketNotFound(bucketName)
 		}
